@@ -79,36 +79,36 @@ def rows : List Row := [
   -- 2147483649: 
   { index := 2147483649, descOk := false, deviceId := 0, kind := 6, name := [],
     openOk := false, oDescOk := false, oDeviceId := 0, oKind := 6, oName := [], closeOk := false },
-  -- 4294967296: simulated: uniform random
-  { index := 4294967296, descOk := true, deviceId := 0, kind := 1, name := [115, 105, 109, 117, 108, 97, 116, 101, 100, 58, 32, 117, 110, 105, 102, 111, 114, 109, 32, 114, 97, 110, 100, 111, 109],
-    openOk := true, oDescOk := true, oDeviceId := 0, oKind := 1, oName := [115, 105, 109, 117, 108, 97, 116, 101, 100, 58, 32, 117, 110, 105, 102, 111, 114, 109, 32, 114, 97, 110, 100, 111, 109], closeOk := true },
-  -- 4294967297: simulated: radial sin
-  { index := 4294967297, descOk := true, deviceId := 1, kind := 1, name := [115, 105, 109, 117, 108, 97, 116, 101, 100, 58, 32, 114, 97, 100, 105, 97, 108, 32, 115, 105, 110],
-    openOk := true, oDescOk := true, oDeviceId := 1, oKind := 1, oName := [115, 105, 109, 117, 108, 97, 116, 101, 100, 58, 32, 114, 97, 100, 105, 97, 108, 32, 115, 105, 110], closeOk := true },
-  -- 4294967298: simulated: empty
-  { index := 4294967298, descOk := true, deviceId := 2, kind := 1, name := [115, 105, 109, 117, 108, 97, 116, 101, 100, 58, 32, 101, 109, 112, 116, 121],
-    openOk := true, oDescOk := true, oDeviceId := 2, oKind := 1, oName := [115, 105, 109, 117, 108, 97, 116, 101, 100, 58, 32, 101, 109, 112, 116, 121], closeOk := true },
-  -- 4294967299: raw
-  { index := 4294967299, descOk := true, deviceId := 3, kind := 2, name := [114, 97, 119],
-    openOk := true, oDescOk := true, oDeviceId := 3, oKind := 2, oName := [114, 97, 119], closeOk := true },
-  -- 4294967300: tiff
-  { index := 4294967300, descOk := true, deviceId := 4, kind := 2, name := [116, 105, 102, 102],
-    openOk := true, oDescOk := true, oDeviceId := 4, oKind := 2, oName := [116, 105, 102, 102], closeOk := true },
-  -- 4294967301: trash
-  { index := 4294967301, descOk := true, deviceId := 5, kind := 2, name := [116, 114, 97, 115, 104],
-    openOk := true, oDescOk := true, oDeviceId := 5, oKind := 2, oName := [116, 114, 97, 115, 104], closeOk := true },
-  -- 4294967302: tiff-json
-  { index := 4294967302, descOk := true, deviceId := 6, kind := 2, name := [116, 105, 102, 102, 45, 106, 115, 111, 110],
-    openOk := true, oDescOk := true, oDeviceId := 6, oKind := 2, oName := [116, 105, 102, 102, 45, 106, 115, 111, 110], closeOk := true },
+  -- 4294967296: 
+  { index := 4294967296, descOk := false, deviceId := 0, kind := 6, name := [],
+    openOk := false, oDescOk := false, oDeviceId := 0, oKind := 6, oName := [], closeOk := false },
+  -- 4294967297: 
+  { index := 4294967297, descOk := false, deviceId := 0, kind := 6, name := [],
+    openOk := false, oDescOk := false, oDeviceId := 0, oKind := 6, oName := [], closeOk := false },
+  -- 4294967298: 
+  { index := 4294967298, descOk := false, deviceId := 0, kind := 6, name := [],
+    openOk := false, oDescOk := false, oDeviceId := 0, oKind := 6, oName := [], closeOk := false },
+  -- 4294967299: 
+  { index := 4294967299, descOk := false, deviceId := 0, kind := 6, name := [],
+    openOk := false, oDescOk := false, oDeviceId := 0, oKind := 6, oName := [], closeOk := false },
+  -- 4294967300: 
+  { index := 4294967300, descOk := false, deviceId := 0, kind := 6, name := [],
+    openOk := false, oDescOk := false, oDeviceId := 0, oKind := 6, oName := [], closeOk := false },
+  -- 4294967301: 
+  { index := 4294967301, descOk := false, deviceId := 0, kind := 6, name := [],
+    openOk := false, oDescOk := false, oDeviceId := 0, oKind := 6, oName := [], closeOk := false },
+  -- 4294967302: 
+  { index := 4294967302, descOk := false, deviceId := 0, kind := 6, name := [],
+    openOk := false, oDescOk := false, oDeviceId := 0, oKind := 6, oName := [], closeOk := false },
   -- 4294967303: 
   { index := 4294967303, descOk := false, deviceId := 0, kind := 6, name := [],
     openOk := false, oDescOk := false, oDeviceId := 0, oKind := 6, oName := [], closeOk := false },
-  -- 30064771078: tiff-json
-  { index := 30064771078, descOk := true, deviceId := 6, kind := 2, name := [116, 105, 102, 102, 45, 106, 115, 111, 110],
-    openOk := true, oDescOk := true, oDeviceId := 6, oKind := 2, oName := [116, 105, 102, 102, 45, 106, 115, 111, 110], closeOk := true },
-  -- 9223372036854775808: simulated: uniform random
-  { index := 9223372036854775808, descOk := true, deviceId := 0, kind := 1, name := [115, 105, 109, 117, 108, 97, 116, 101, 100, 58, 32, 117, 110, 105, 102, 111, 114, 109, 32, 114, 97, 110, 100, 111, 109],
-    openOk := true, oDescOk := true, oDeviceId := 0, oKind := 1, oName := [115, 105, 109, 117, 108, 97, 116, 101, 100, 58, 32, 117, 110, 105, 102, 111, 114, 109, 32, 114, 97, 110, 100, 111, 109], closeOk := true },
+  -- 30064771078: 
+  { index := 30064771078, descOk := false, deviceId := 0, kind := 6, name := [],
+    openOk := false, oDescOk := false, oDeviceId := 0, oKind := 6, oName := [], closeOk := false },
+  -- 9223372036854775808: 
+  { index := 9223372036854775808, descOk := false, deviceId := 0, kind := 6, name := [],
+    openOk := false, oDescOk := false, oDeviceId := 0, oKind := 6, oName := [], closeOk := false },
   -- 18446744073709551615: 
   { index := 18446744073709551615, descOk := false, deviceId := 0, kind := 6, name := [],
     openOk := false, oDescOk := false, oDeviceId := 0, oKind := 6, oName := [], closeOk := false }
